@@ -102,6 +102,28 @@ func verifKind(c IClaims) int {
 	return 0
 }
 
+// native replay runs all cases of a batch in one process: the profile register is restored to
+// its post-init content before each case (symbolic runs start from the post-init register anyway)
+var verifRegSnap = map[string]interface{}{}
+var verifRegSnapped bool
+
+func init() {
+	verifCaseReset = func() {
+		if !verifRegSnapped {
+			for k, v := range profilesRegister {
+				verifRegSnap[k] = v
+			}
+			verifRegSnapped = true
+			return
+		}
+		for k := range profilesRegister {
+			if _, ok := verifRegSnap[k]; !ok {
+				delete(profilesRegister, k)
+			}
+		}
+	}
+}
+
 func verifRegisterExtras() int {
 	n := ndConcrete(verifChoice("extras", 3))
 	ndAssume(n <= ndParam("maxextras", 2) && n >= ndParam("minextras", 0))
